@@ -388,8 +388,79 @@ def fr_loop_ok(num, den):
     return any(c != 0 for c in t180)
 
 
+def fr_disc(case):
+    return case["dt"] != "C"
+
+
+def fr_lti_tf(case):
+    """the transfer function stability_margins works on for an LTI source (state-space form: after the code's own
+    conversion) and its exact coefficient lists"""
+    sys = build(dict(case, form=case["store"]))
+    t = sys if isinstance(sys, ct.TransferFunction) else xferfcn._convert_to_transfer_function(sys)
+    return t, [fr(c) for c in t.num[0][0]], [fr(c) for c in t.den[0][0]]
+
+
+def fr_loop_ok_d(num, den):
+    """discrete-time loops whose response on the upper half circle is representable by samples: proper, no pole or
+    zero on |z| = 1 other than at z = 1 (float root test with a wide margin: unverified, only selects cases), and a
+    real-crossing polynomial that does not vanish identically"""
+    if len(num) > len(den):
+        return False
+    for p in (num, den):
+        q = list(p)
+        while len(q) > 1 and exact.pval(q, F1) == 0:      # deflate roots at z = 1
+            q, _ = p_divmod(q, [F1, -F1])
+        if len(q) > 1:
+            r = _ORIG_ROOTS([float(c) for c in q])
+            if np.any(np.abs(np.abs(r) - 1.0) < 1e-6):
+                return False
+    return any(c != 0 for c in oracle_polys_d(num, den)["real"])
+
+
+def fr_likely(num, den):
+    """_likely_numerical_inaccuracy decided exactly (squared norms): (fires, distance from the threshold)"""
+    pq = len(num) - len(den)
+    q1 = np_mul(num, num[::-1])
+    if pq < 0:
+        q1 = np_mul(q1, [F1] + [F0] * (-pq))
+    q2 = np_mul(den, den[::-1])
+    n1, n2 = sum(c * c for c in q1), sum(c * c for c in q2)
+    return n1 < TOL2 * n2, (float(n1 / (TOL2 * n2)) if n2 else 1.0)
+
+
+def fr_eval(case, num, den):
+    """float evaluation of the loop at the frequency w (continuous: s = jw, discrete: z = exp(jw dt))"""
+    nf = np.array([float(c) for c in num])
+    df = np.array([float(c) for c in den])
+    if fr_disc(case):
+        dtv = float(dt_value(case["dt"]))
+
+        def ev(w):
+            z = np.exp(1j * np.asarray(w) * dtv)
+            with np.errstate(all="ignore"):
+                return np.polyval(nf, z) / np.polyval(df, z)
+        return ev
+    return lambda w: np.polyval(nf, 1j * np.asarray(w)) / np.polyval(df, 1j * np.asarray(w))
+
+
 def fr_data(case):
-    """the Bode data of the case: omega (log grid), the float response L(j omega), mag, phase in degrees"""
+    """the Bode data of the case: omega (log grid), the float response L(j omega), mag, phase in degrees.
+    Discrete-time LTI sources (method='frd' / the fall-back of method='best'): omega is the code's own default
+    frequency range of the transfer function (an external, taken from the implementation as in `bandwidth`), CUT
+    as the model of the head of stability_margins says (`MarginsHead.belowNyquist`: omega < pi/dt); the response
+    is the loop on the unit circle, z = exp(j omega dt)."""
+    if fr_disc(case):
+        t, num, den = fr_lti_tf(case)
+        with warnings.catch_warnings():
+            warnings.simplefilter("ignore")
+            full = np.array(freqplot._default_frequency_range(t), ndmin=1, dtype=float)
+        dtv = float(dt_value(case["dt"]))
+        om = full[full * dtv < math.pi * (1 - 1e-12)]
+        resp = fr_eval(case, num, den)(om)
+        # samples within 1e-12 of the Nyquist frequency: the cut is a rounding decision (reported as a guard)
+        edge = bool(np.any(np.abs(full * dtv - math.pi) <= 1e-12 * math.pi))
+        ph = np.angle(resp)
+        return om, resp, np.abs(resp), ph * 180.0 / np.pi, edge
     num, den = case_coeffs(case)
     nf = np.array([float(c) for c in num])
     df = np.array([float(c) for c in den])
@@ -399,23 +470,45 @@ def fr_data(case):
     ph = np.angle(resp)
     if case.get("unwrap"):
         ph = np.unwrap(ph)
-    return om, resp, np.abs(resp), ph * 180.0 / np.pi
+    return om, resp, np.abs(resp), ph * 180.0 / np.pi, False
 
 
-def fr_interp_error(case, om, resp):
+def fr_interp_error(case, om, resp, coeffs=None):
     """measured relative error of the cubic-spline interpolation of the data in omega (what a smooth FRD
     evaluates between the samples; scipy's FITPACK is an external): the interpolating spline through the samples
     is compared with the loop itself at the geometric midpoints of the grid intervals"""
     from scipy.interpolate import splrep, splev
     if len(om) < 16:
         return math.inf
-    num, den = case_coeffs(case)
-    nf = np.array([float(c) for c in num])
-    df = np.array([float(c) for c in den])
+    num, den = coeffs if coeffs is not None else case_coeffs(case)
     mid = np.sqrt(om[:-1] * om[1:])
-    true = np.polyval(nf, 1j * mid) / np.polyval(df, 1j * mid)
+    with np.errstate(all="ignore"):
+        true = fr_eval(case, num, den)(mid)
+    if not np.all(np.isfinite(true)) or np.any(true == 0):
+        return math.inf
     est = splev(mid, splrep(om, resp.real, s=0)) + 1j * splev(mid, splrep(om, resp.imag, s=0))
     return float(np.max(np.abs(est - true) / np.abs(true)))
+
+
+def fr_minimizer_leaves_grid(om, resp, idx):
+    """does scipy's minimize_scalar, started as the FRD branch starts it (bracket = the two samples om[i], om[i+1],
+    no bounds) on |1 + spline through the CORRECT data|, end outside [om[0], om[-1]] for one of the grid minima
+    `idx`?  (the code then drops the point: `wstab[(wstab >= omega[0]) * (wstab <= omega[-1])]`)"""
+    from scipy.interpolate import splrep, splev
+    tr, ti = splrep(om, resp.real, s=0), splrep(om, resp.imag, s=0)
+
+    def dstab(w):
+        return float(np.hypot(splev(w, tr) + 1.0, splev(w, ti)))
+    for i in idx:
+        try:
+            with np.errstate(all="ignore"), warnings.catch_warnings():
+                warnings.simplefilter("ignore")
+                x = float(_ORIG_MIN_SCALAR(dstab, bracket=(float(om[i]), float(om[i + 1]))).x)
+        except Exception:  # noqa
+            return True
+        if not (om[0] <= x <= om[-1]):
+            return True
+    return False
 
 
 def results_close(a, b, tau):
@@ -453,6 +546,11 @@ def fr_call(call, triple, obj):
             warnings.simplefilter("ignore")
             if obj is not None and pack == "frd-method":
                 r = ct.stability_margins(obj, returnall=returnall, method="frd")
+                return canon_result(("gm", "pm", "sm", "wpc", "wgc", "wms"), r, returnall)
+            if obj is not None and pack == "best-method":      # the automatic fall-back (default method)
+                if api == "margin":
+                    return canon_result(("gm", "pm", "wpc", "wgc"), ct.margin(obj), False)
+                r = ct.stability_margins(obj, returnall=returnall)
                 return canon_result(("gm", "pm", "sm", "wpc", "wgc", "wms"), r, returnall)
             if api == "margin":
                 if obj is not None:
@@ -514,8 +612,13 @@ def fr_history(case, om, resp, mag, ph, only_fresh=None):
             pristine["obj"] = (np.array(obj.frdata, copy=True).tobytes(), np.array(obj.omega, copy=True).tobytes())
     results = []
     sysobj = None
-    if source == "lti-frd":
+    ltipack = {"lti-frd": "frd-method", "lti-best": "best-method"}.get(source)
+    if ltipack:
         sysobj = build(dict(case, form=store))
+        try:
+            pristine["sys"] = tf_coeffs(sysobj)
+        except Exception:  # noqa
+            pass
     if only_fresh is not None:
         call = case["calls"][only_fresh]
         if source == "bode3":
@@ -524,8 +627,8 @@ def fr_history(case, om, resp, mag, ph, only_fresh=None):
             if store == "rows2d" and call[0] == "stability_margins":
                 return fr_call([call[0], call[1], "array"], np.array([mag, ph, om]), None)
             return fr_call(call, fresh_triple(), None)
-        if source == "lti-frd":
-            return fr_call([call[0], call[1], "frd-method"], None, build(dict(case, form=store)))
+        if ltipack:
+            return fr_call([call[0], call[1], ltipack], None, build(dict(case, form=store)))
         return fr_call(call, None, mk())
     for call in case["calls"]:
         if source == "bode3":
@@ -540,11 +643,17 @@ def fr_history(case, om, resp, mag, ph, only_fresh=None):
                     results.append(fr_call(call, [kept[0], kept[1], kept[2]], None))
             else:
                 results.append(fr_call(call, kept, None))
-        elif source == "lti-frd":
-            results.append(fr_call([call[0], call[1], "frd-method"], None, sysobj))
+        elif ltipack:
+            results.append(fr_call([call[0], call[1], ltipack], None, sysobj))
         else:
             results.append(fr_call(call, None, obj if obj is not None else mk()))
     modified = [k for k, a in watch.items() if np.asarray(a).tobytes() != pristine[k]]
+    if sysobj is not None and "sys" in pristine:
+        try:
+            if tf_coeffs(sysobj) != pristine["sys"]:
+                modified.append("system-object")
+        except Exception:  # noqa
+            modified.append("system-object")
     if obj is not None and "obj" in pristine:
         now = (np.array(obj.frdata, copy=True).tobytes(), np.array(obj.omega, copy=True).tobytes())
         if now != pristine["obj"]:
@@ -695,15 +804,21 @@ class C12(Family):
         "freqplot._default_frequency_range (the sampling grid of bandwidth is taken from the implementation)",
         "abs/angle/exp/10**x (evaluated in binary64 by the harness on the model's exact complex values)",
         "scipy.optimize.brentq / minimize_scalar and the FITPACK spline of a smooth FRD in the sampled-data route "
-        "(the grid intervals handed to them are the model's; the spline's distance from the loop is measured per case "
+        "(the grid intervals handed to them are the model's; for discrete-time systems sampled by stability_margins "
+        "the grid itself is freqplot._default_frequency_range of the implementation; the spline's distance from the loop is measured per case "
         "at the interval midpoints and sets the tolerance of the defining equations: 1e3 x that, between 1e-3 and 1e-2)"]
     assumptions = [
         "crossings are simple: cases where two selected frequencies, two candidate minima of the "
         "default selection, or a sign decision are closer than the stated guard are counted as guarded, not compared",
         "IEEE arithmetic is exact on integer/dyadic coefficient products below 2^50 (regime E: the "
         "polynomial given to numpy.roots must equal the model's coefficient list exactly)",
-        "discrete time is modelled for epsw = 0; the numerical-inaccuracy fallback and method='frd' (the code's own "
-        "frequency grid) are outside the model; the sampled-data route is modelled for Bode data / FRD objects of "
+        "discrete time is modelled for epsw = 0; method='frd' on a CONTINUOUS-time system (the code's own frequency "
+        "grid) is outside the model; for DISCRETE-time systems method='frd' and the numerical-inaccuracy fall-back of "
+        "method='best' are compared on the grid freqplot._default_frequency_range returns for the transfer function "
+        "(taken from the implementation), cut below pi/dt as the model of the head of stability_margins says "
+        "(MarginsHead.belowNyquist), with the exact discrete crossings of the polynomial-route model as the reference "
+        "(loops without poles / zeros on |z| = 1 except at z = 1; local minima of |1+L| found by an unverified grid "
+        "search and evaluated exactly); the sampled-data route is modelled for Bode data / FRD objects of "
         "continuous-time loops without poles or zeros on the imaginary axis at w > 0, on logarithmic grids of 100-270 "
         "points per decade; a part (phase / gain / stability) is compared only when every sign decision on the data has "
         "a relative margin of 1e-9 (slope of |1+L|: 1e-12), the exact crossings are at least 4 grid intervals apart and "
@@ -728,7 +843,13 @@ class C12(Family):
             "control group): every call of the history must satisfy the defining equations on the exact loop, report one "
             "crossing per sign change of the data (Lean model of the bracket selection) and select the smallest exact "
             "margin; the caller's arrays must be bit-identical afterwards; n/25 polynomial-route cases repeat the call 2-3 "
-            "times on the same system object; non-trivial = order >= 2 or a non-default option; distinct = distinct "
+            "times on the same system object; n/20 cases are DISCRETE-time loops that stability_margins samples itself "
+            "(sampling periods 1/1024 .. 64): explicit method='frd' on ordinary discrete loops and the automatic fall-back "
+            "of the default method (stability_margins and margin) on fast-sampled slow dynamics (poles 1 - 2^-k, k = 5..12, "
+            "0-3 samples of delay, integrators, numerator gain 2^-j), TF and SS form, 1-2 calls on the same object: every "
+            "crossing of the exact discrete loop inside the sampled band (0, pi/dt) must be reported (one per sign change "
+            "of the data on the correctly cut grid), satisfy its defining equation on the unit circle, and the default "
+            "selection must be the smallest exact margin; non-trivial = order >= 2 or a non-default option; distinct = distinct "
             "canonical serialisation")
 
     def __init__(self):
@@ -861,6 +982,51 @@ class C12(Family):
             case["store"] = rng.choice(["kept", "kept", "kept", "fresh"])
         return case
 
+    def gen_fd(self, rng, tier):
+        """DISCRETE-time loops that stability_margins samples itself (its default frequency range cut at the
+        Nyquist frequency): explicit method='frd' on ordinary discrete loops (crossings anywhere in (0, pi/dt)), and
+        the automatic fall-back of the default method for fast-sampled slow dynamics (poles 1 - 2^-k, sample delays,
+        discrete integrators, numerator gain 2^-j: `_likely_numerical_inaccuracy` fires), stability_margins and
+        margin, TF and SS form, 1-2 calls on the same system object"""
+        num, den, source = ["1/512"], ["1", "-1023/1024", "0"], "lti-best"
+        for _ in range(40):
+            if rng.random() < 0.5:
+                d = [F1]
+                ks = [rng.choice([5, 6, 7, 8, 9, 10, 11, 12]) for _ in range(rng.choice([1, 1, 2]))]
+                for k in ks:
+                    d = exact.pmul(d, [F1, Fraction(1, 2 ** k) - 1])
+                for _ in range(rng.choice([0, 1, 1, 1, 2, 3])):
+                    d = exact.pmul(d, [F1, F0])                      # samples of delay
+                if rng.random() < 0.25:
+                    d = exact.pmul(d, [F1, -F1])                     # discrete integrator
+                if rng.random() < 0.3 and len(d) <= 4:
+                    d = exact.pmul(d, self.rnd_factor_d(rng))
+                n_ = [F1]
+                if rng.random() < 0.35 and len(d) >= 3:
+                    n_ = [F1, Fraction(rng.choice([-3, -2, -1, 0, 1, 2, 3]), 4)]
+                g = Fraction(rng.choice([1, 1, 2, 3, 5, 10]), 2 ** (min(ks) + rng.choice([-2, -1, 0, 1, 2, 3, 4])))
+                if rng.random() < 0.2:
+                    g = -g
+                cn, cd, src = [g * c for c in n_], d, ("lti-best" if rng.random() < 0.7 else "lti-frd")
+            else:
+                tn, td = self.rnd_loop(rng, True, 4)
+                cn, cd, src = [Fraction(x) for x in tn], [Fraction(x) for x in td], "lti-frd"
+            if not fr_loop_ok_d(cn, cd):
+                continue
+            fires, dist = fr_likely(cn, cd)
+            if src == "lti-best" and not (fires and dist < 0.25):
+                src = "lti-frd"
+            num, den, source = [tok(c) for c in cn], [tok(c) for c in cd], src
+            break
+        dt = rng.choice(["D1/1000", "D1/1024", "D1/100", "D1/64", "T", "D1/2", exact.dt_tok(0.1), "D2", "D5/2",
+                         "D10", "D64"])
+        calls = []
+        for _ in range(rng.choice([1, 1, 2])):
+            api = "margin" if source == "lti-best" and rng.random() < 0.2 else "stability_margins"
+            calls.append([api, bool(api == "stability_margins" and rng.random() < 0.6), "obj"])
+        store = "ss" if rng.random() < 0.15 and len(num) < len(den) else "tf"
+        return {"kind": "fr", "num": num, "den": den, "dt": dt, "source": source, "store": store, "calls": calls}
+
     def generate(self, rng, tier):
         n = 1000 if tier == "quick" else 15000
         out = []
@@ -876,6 +1042,9 @@ class C12(Family):
             c = self.gen_sm(rng, tier)
             c["repeat"] = rng.choice([2, 2, 3])       # the same call again on the same system object
             out.append(c)
+        # discrete-time loops on the sampled route (drawn last: the streams above are unchanged for a given seed)
+        for i in range(n // 20):
+            out.append(self.gen_fd(rng, tier))
         return out
 
     def corpus(self):
@@ -940,6 +1109,19 @@ class C12(Family):
             fr(["1"], ["1", "2", "1", "0"], [["margin", False, "obj"], ["stability_margins", True, "obj"]],
                source="frdobj-smooth", store="kept"),
             fr(["4"], ["1", "3", "3", "1"], [["stability_margins", False, "obj"]], source="lti-frd", store="tf"),
+            # discrete-time loops sampled by stability_margins itself (C12-m8): fast-sampled first-order plant with one
+            # sample of delay (fall-back of the default method; phase crossover at w dt = pi/3), explicit method='frd'
+            fr(["1/128"], ["1", "-1023/1024", "0"], [["stability_margins", True, "obj"]], dt="D1/1000",
+               source="lti-best", store="tf", grid=None),
+            fr(["1/128"], ["1", "-1023/1024", "0"], [["stability_margins", False, "obj"], ["margin", False, "obj"]],
+               dt="D1/1000", source="lti-best", store="tf", grid=None),
+            fr(["1/2", "1/4"], ["1", "-3/2", "1/2"], [["stability_margins", True, "obj"]], dt="T", source="lti-frd",
+               store="tf", grid=None),
+            fr(["1/2"], ["1", "-1/2", "0", "0"], [["stability_margins", True, "obj"]] * 2, dt="D64", source="lti-frd",
+               store="ss", grid=None),
+            # the unbounded minimize_scalar of the sampled route walks out of the band (known finding)
+            fr(["-1/2"], ["1", "1/4", "2", "-1/16", "15/16"], [["stability_margins", False, "obj"]], dt="T",
+               source="lti-frd", store="tf", grid=None),
             sm(["1"], ["1", "2", "1", "0"], repeat=3),
             sm(["1/2", "1/4"], ["1", "-3/2", "1/2"], "T", returnall=False, repeat=2),
             sm(["1"], ["1", "2", "1", "0"], form="ss", api="margin", returnall=False, repeat=2),
@@ -1113,13 +1295,23 @@ class C12(Family):
         return {"impl": impl, "line": line, "info": info}
 
     def _run_fr(self, case):
-        """sampled-data route: a history of calls on Bode data / an FRD object of a continuous-time loop"""
+        """sampled-data route: a history of calls on Bode data / an FRD object of a continuous-time loop, or on a
+        discrete-time system that stability_margins samples itself (method='frd', fall-back of method='best')"""
         info = {}
-        num, den = case_coeffs(case)
-        om, resp, mag, ph = fr_data(case)
-        if not (np.all(np.isfinite(resp)) and np.all(np.isfinite(ph))):
-            return {"impl": {"err": "build", "exc": "non-finite data"},
+        disc = fr_disc(case)
+        try:
+            if disc:
+                _, num, den = fr_lti_tf(case)
+            else:
+                num, den = case_coeffs(case)
+            om, resp, mag, ph, edge = fr_data(case)
+        except Exception as e:  # noqa  construction failed: nothing to compare
+            return {"impl": {"err": "build", "exc": "%s: %s" % (type(e).__name__, str(e)[:200])},
                     "line": ["mg smc 1 1 1 1 0 0 0 0", "mg frd 0"], "info": {"build_failed": True}}
+        if not (np.all(np.isfinite(resp)) and np.all(np.isfinite(ph))) or (disc and len(num) > len(den)):
+            return {"impl": {"err": "build", "exc": "non-finite data"},
+                    "line": ["mg smc 1 1 1 1 0 0 0 0", "mg frd 0"], "info": {"build_failed": True,
+                                                                             "data_nonfinite": disc}}
         results, modified = fr_history(case, om, resp, mag, ph)
         last = len(results) - 1
         impl = {"calls": results, "modified": modified,
@@ -1127,9 +1319,9 @@ class C12(Family):
                 fr_history(case, om, resp, mag, ph, only_fresh=last)}
         info["fresh"] = lambda k: impl["fresh_last"] if k == last else \
             fr_history(case, om, resp, mag, ph, only_fresh=k)
-        info["om"], info["resp"] = om, resp
+        info["om"], info["resp"], info["nyquist_edge"] = om, resp, edge
         info["num"], info["den"] = [tok(c) for c in num], [tok(c) for c in den]
-        polys = oracle_polys_c(num, den)
+        polys = oracle_polys_d(num, den) if disc else oracle_polys_c(num, den)
         info["bits"] = max([mant_bits(c) for p in polys.values() for c in p] + [1])
         roots_for = {k: _ORIG_ROOTS([float(c) for c in v]) for k, v in polys.items()}
         worst = 0.0
@@ -1142,11 +1334,23 @@ class C12(Family):
                     worst = max(worst, ratio(max(abs(vr), abs(vi)), sc))
         info["roots_rel_residual"] = worst
         info["oracle_polys"] = {k: [tok(c) for c in v] for k, v in polys.items()}
-        info["interp"] = fr_interp_error(case, om, resp)
-        line = ["mg smc %s %s 0 %s %s %s" % (toks(num), toks(den), ctoks(roots_for["real"]),
-                                             ctoks(roots_for["mag1"]), ctoks(roots_for["wstab"])),
-                "mg frd " + ctoks(resp)]
-        return {"impl": impl, "line": line, "info": info}
+        info["interp"] = fr_interp_error(case, om, resp, (num, den))
+        if disc:
+            # the local minima of |1+L| on the half circle (unverified search; the model evaluates the loop there)
+            try:
+                ang = sorted(sm_witness_angles(num, den, nmax=12))
+            except Exception:  # noqa
+                ang = []
+            info["stab_angles"] = ang
+            zst = [circle_point(t) for t in ang]
+            line0 = "mg smd %s %s %s %s %s %s %d%s 0" % (
+                toks(num), toks(den), toks([fr(e) for e in EPS_TABLE]), tok(TOL2),
+                ctoks(roots_for["real"]), ctoks(roots_for["mag1"]),
+                len(zst), "".join(" %s %s" % (tok(a), tok(b)) for a, b in zst))
+        else:
+            line0 = "mg smc %s %s 0 %s %s %s" % (toks(num), toks(den), ctoks(roots_for["real"]),
+                                                 ctoks(roots_for["mag1"]), ctoks(roots_for["wstab"]))
+        return {"impl": impl, "line": [line0, "mg frd " + ctoks(resp)], "info": info}
 
     def _run_bw(self, case):
         info = {}
@@ -1198,6 +1402,8 @@ class C12(Family):
     # ---- model output -----------------------------------------------------------------------------
     def parse_model(self, case, out):
         if case["kind"] == "fr":
+            if self._run(case)["info"].get("build_failed"):      # placeholder line (continuous form)
+                return self.parse_model(dict(case, kind="sm", dt="C"), out[0])
             exact_m = self.parse_model(dict(case, kind="sm"), out[0])
             tk = Tokens(out[1])
             assert tk.next() == "ok" and tk.next() == "Z"
@@ -1285,6 +1491,12 @@ class C12(Family):
     def compare(self, case, impl, model):
         run = self._run(case)
         info = run["info"]
+        if info.get("data_nonfinite"):
+            # harness-side: the binary64 evaluation of the loop on the grid over/underflows (e.g. a multiple pole at
+            # z = 1 and samples with w dt ~ 1e-9), or the system is not proper - nothing to compare on this route
+            info["guard"] = "frd-data-nonfinite"
+            return Verdict(AGREE, "guarded: the sampled response is not finite in binary64",
+                           {"guard": "frd-data-nonfinite"})
         if info.get("build_failed"):
             return Verdict(DIFFERS, "system construction failed: " + impl.get("exc", ""),
                            self.feat(case, "build"))
@@ -1393,7 +1605,8 @@ class C12(Family):
         return v0
 
     def feat_fr(self, case, kind, call, **kw):
-        f = {"kind": kind, "call": call, "time": "continuous", "source": case["source"], "store": case["store"]}
+        f = {"kind": kind, "call": call, "time": "discrete" if fr_disc(case) else "continuous",
+             "source": case["source"], "store": case["store"]}
         f.update(kw)
         return f
 
@@ -1407,10 +1620,16 @@ class C12(Family):
         d2 = (resp.real + 1.0) ** 2 + resp.imag ** 2
         out = {}
 
+        disc = fr_disc(case)
+        dtv = float(dt_value(case["dt"])) if disc else 0.0
+
         def exact_list(lst):
             res = []
             for c in lst:
-                w = float(Fraction(c[0]))
+                if disc:      # a point of the unit circle: w = angle / dt
+                    w = math.atan2(float(Fraction(c[0][1])), float(Fraction(c[0][0]))) / dtv
+                else:
+                    w = float(Fraction(c[0]))
                 r = None if c[1] is None else (Fraction(c[1][0]), Fraction(c[1][1]))
                 res.append((w, r))
             return sorted(res, key=lambda t: t[0])
@@ -1421,10 +1640,10 @@ class C12(Family):
         def shallow(w, which):
             """the Nyquist curve cuts the real axis (P) / the unit circle (G) at a shallow angle at w: the
             position of the crossing is ill-conditioned with respect to the interpolation error"""
-            z = 1j * w
+            z = np.exp(1j * w * dtv) if disc else 1j * w
             n0, d0 = np.polyval(nf, z), np.polyval(df, z)
             n1, d1 = np.polyval(np.polyder(nf), z), np.polyval(np.polyder(df), z)
-            L, dL = n0 / d0, 1j * (n1 * d0 - n0 * d1) / (d0 * d0)
+            L, dL = n0 / d0, (1j * dtv * z if disc else 1j) * (n1 * d0 - n0 * d1) / (d0 * d0)
             if dL == 0:
                 return True
             if which == "P":
@@ -1441,6 +1660,9 @@ class C12(Family):
             if any(w < om[4] or w > om[n - 5] for w, _ in inside):
                 return "crossing-near-grid-end"
             step = om[1] / om[0]
+            if disc and any(abs(a - b) <= 1e-9 * max(a, b) for (a, _), (b, _) in zip(inside, inside[1:])):
+                # the same point of the circle twice (root of the test polynomial returned as a pair)
+                return "crossings-closer-than-4-intervals"
             if any(b / a < step ** 4 for (a, _), (b, _) in zip(inside, inside[1:])):
                 return "crossings-closer-than-4-intervals"
             if len(inside) != len(idx):
@@ -1486,7 +1708,14 @@ class C12(Family):
             return ("frd-raises", "raises %s" % res["exc"])
         got = res["ok"]
 
+        disc = fr_disc(case)
+        Lfloat = fr_eval(case, num, den)
+
         def Lat(w):
+            if disc:      # z = exp(j w dt) is not rational: binary64 evaluation (tolerances are >= 1e-3)
+                with np.errstate(all="ignore"):
+                    v = complex(Lfloat(w))
+                return v if math.isfinite(v.real) and math.isfinite(v.imag) else None
             r = resp_exact(num, den, (F0, fr(w)))
             return None if r is None else complex(float(r[0]), float(r[1]))
 
@@ -1623,7 +1852,19 @@ class C12(Family):
                 return Verdict(DIFFERS, "harness oracle and Lean model disagree on the %s polynomial" % which,
                                {"kind": "oracle-vs-model", "poly": which})
         num, den = [Fraction(x) for x in info["num"]], [Fraction(x) for x in info["den"]]
-        if case["source"] == "lti-frd":
+        disc = fr_disc(case)
+        if disc:
+            # discrete-time system sampled by stability_margins itself: the fall-back decision is the model's
+            n1, n2 = float(Fraction(m["n1sq"])), float(Fraction(m["n2sq"]))
+            if abs(n1 - 1e-8 * n2) <= 1e-6 * 1e-8 * n2:
+                return Verdict(AGREE, "guarded", {"guard": "fallback-threshold"})
+            if case["source"] == "lti-best" and not m["fallback"]:
+                return Verdict(AGREE, "guarded: the numerical-inaccuracy switch does not fire (polynomial route; "
+                               "covered by the single-call stream)", {"guard": "frd-no-fallback"})
+            if info["nyquist_edge"]:
+                return Verdict(AGREE, "guarded: a sample of the default range within 1e-12 of the Nyquist frequency",
+                               {"guard": "frd-nyquist-edge"})
+        if case["source"] == "lti-frd" and not disc:
             for call, res in zip(case["calls"], impl["calls"]):
                 if "err" in res:
                     msg = res["exc"].split(":", 1)[1].strip()[:50]
@@ -1647,6 +1888,17 @@ class C12(Family):
             bad = self.fr_check_call(case, call, res, parts, br, om, num, den, tol)
             if bad is None:
                 continue
+            if disc and bad[0] in ("frd-stab-missing", "frd-sm-default-missing", "frd-sm-not-minimum") and \
+                    fr_minimizer_leaves_grid(om, info["resp"], br["S"]):
+                # the unbounded bracket search of minimize_scalar walks out of the sampled band (towards a lower
+                # minimum at / beyond the Nyquist frequency) and the code drops the result: listed finding
+                bad = ("frd-sm-minimizer-leaves-grid", bad[1] + "; minimize_scalar started from the bracket of the "
+                       "grid minimum ends outside the sampled band")
+            if disc:
+                dtv = float(dt_value(case["dt"]))
+                bad = (bad[0], "%s [discrete-time loop, dt = %r, sampled by stability_margins on its default "
+                       "frequency range below the Nyquist frequency: %d samples in [%.6g, %.6g], pi/dt = %.6g]"
+                       % (bad[1], dtv, len(om), om[0], om[-1], math.pi / dtv))
             fres = info["fresh"](k)
             fresh_bad = self.fr_check_call(case, call, fres, parts, br, om, num, den, tol)
             hist = "first-call" if k == 0 else "later-call-on-the-same-data"
@@ -1973,6 +2225,18 @@ class C12(Family):
         if case["kind"] == "fr":
             st.update({"source": case["source"], "store": case["store"], "ncalls": len(case["calls"]),
                        "fr_parts": info.get("fr_parts", "n/a")})
+            if fr_disc(case):
+                dtv = float(dt_value(case["dt"]))
+                st["dt"] = "1" if dtv == 1 else ("<1" if dtv < 1 else ">1")
+                if "ok" in model and info.get("om") is not None and len(info["om"]):
+                    # where the exact phase crossovers inside the grid lie in the Nyquist band (w dt / pi)
+                    top = 0.0
+                    for c in model["ok"].get("A", []):
+                        th = math.atan2(float(Fraction(c[0][1])), float(Fraction(c[0][0])))
+                        if info["om"][0] <= th / dtv <= info["om"][-1]:
+                            top = max(top, th / math.pi)
+                    st["top_phase_crossing"] = "none" if top == 0 else ("<0.16" if top < 0.5 / math.pi else
+                                                                        ("<0.5" if top < 0.5 else ">=0.5")) + " of Nyquist"
             return st
         if case.get("repeat"):
             st["history"] = "repeat-x%d" % int(case["repeat"])
@@ -2030,7 +2294,7 @@ class C12(Family):
                 yield dict(case, store={"bode3": "ndarray", "lti-frd": "tf"}.get(case["source"], "kept"))
             if case.get("unwrap"):
                 yield dict(case, unwrap=False)
-            if case["grid"] != [-2, 2, 600]:
+            if case.get("grid") not in (None, [-2, 2, 600]):
                 yield dict(case, grid=[-2, 2, 600])
         if case.get("repeat") and int(case["repeat"]) > 2:
             yield dict(case, repeat=2)
@@ -2060,7 +2324,7 @@ class C12(Family):
         out = []
         for _ in range(200):
             if case["kind"] == "fr":
-                out.append(self.gen_fr(rng, tier))
+                out.append(self.gen_fd(rng, tier) if fr_disc(case) else self.gen_fr(rng, tier))
             else:
                 out.append(self.gen_bw(rng, tier) if case["kind"] == "bw" else self.gen_sm(rng, tier))
         return out
